@@ -24,7 +24,7 @@ type Variant struct {
 	File     string   `json:"file"`
 	Old      string   `json:"old"`
 	New      string   `json:"new"`
-	Expect   string   `json:"expect"` // substring of the obligation key expected to fail
+	Expect   string   `json:"expect"`           // substring of the obligation key expected to fail
 	Benign   bool     `json:"benign,omitempty"` // behaviour-preserving edit: the check must stay silent
 	Note     string   `json:"note,omitempty"`
 }
